@@ -36,6 +36,8 @@ class C13(Machine):
         op = full_op(world, rng)
         if rng.random() < p["p_fault"]:
             op["fail_at"] = rng.randint(1, 12)
+            if rng.random() < 0.3:
+                op["fail_exc"] = "memory"
         return op
 
     def check_step(self, world, st, op, out, step):
